@@ -48,14 +48,16 @@ Verdict(e) ==
   LET its == LexAll(e.text, Intended)
       p == ParseItems(its, e.text)
       wtc == WordThenComment(its, e.text)
-      direct == IF p.ok /\ e.ret = "ok" THEN Diff(p.tree, e.walked, TRUE) ELSE "none"
+      \* ("walk-panic": the text was accepted, but walking the tree through Children / Statement / Argument / ErrorContext
+      \* panicked - a statement of an accepted text that cannot say where it is)
+      direct == IF p.ok /\ e.ret = "ok" THEN Diff(p.tree, e.walked, TRUE) ELSE IF p.ok /\ e.ret = "walk-panic" THEN "walk-panic" ELSE "none"
       rel == IF e.base > 0 /\ p.ok
              THEN LET o == Trace[e.base]  q == ParseText(o.text) IN
                   IF q.ok /\ o.ret = "ok" /\ SameModPos(q.tree, p.tree)
                   THEN (IF e.ret # "ok" THEN "layout-rejected" ELSE LET d == Diff(AsSpec(o.walked), e.walked, FALSE) IN IF d = "none" THEN "none" ELSE "layout-" \o d)
                   ELSE "none"
              ELSE "none"
-  IN [judged |-> p.ok /\ e.ret = "ok", what |-> IF direct # "none" THEN direct ELSE rel, wtc |-> wtc]
+  IN [judged |-> p.ok /\ e.ret \in {"ok", "walk-panic"}, what |-> IF direct # "none" THEN direct ELSE rel, wtc |-> wtc]
 TStep == /\ l <= Len(Trace) /\ l' = l + 1
          /\ LET e == Trace[l]  v == Verdict(e) IN
             /\ njudged' = njudged + (IF v.judged THEN 1 ELSE 0)
